@@ -1259,7 +1259,9 @@ class TrajectoryStore:
             traj_var=[traj_var],
             species=species,
             groups=groups,
-            size_index=[len(traj_dim)],
+            # Only merged stores use a cumulative size table: a single file
+            # may grow (APPEND mode), which would make a snapshot stale.
+            size_index=None,
             title=title,
             comment=comment,
             history=history,
@@ -1584,6 +1586,8 @@ class TrajectoryStore:
                 if file_index >= len(nc_files.size_index):
                     return
                 group_index = index - nc_files.size_index[file_index]
+            elif index < 0 or index >= len(nc_files.traj_dim[0]):
+                return
             group = nc_files.groups[fs_name][file_index]
 
             # Read data from NetCDF variables.
